@@ -211,6 +211,11 @@ def compare(q, ref):
 
 def main():
     payload = json.loads(sys.stdin.read())
+    if payload.get("prelude", True):
+        import os as _os
+        sys.path.insert(0, _os.path.dirname(_os.path.abspath(__file__)))
+        from prelude import run_prelude
+        run_prelude()
     results = []
     for prog in payload["programs"]:
         gen = torch.Generator().manual_seed(prog["seed"])
